@@ -113,7 +113,7 @@ PROPS["C01"] = {
 
 PROPS["C19"] = {
     "gen": ["Stage", "WalkWorker"],
-    "props_files": ["C19", "C19Live"],
+    "props_files": ["C19", "C19Live", "C19Bound"],
     "trusted_base": ["the multiprocessing model of DESIGN.md §3; a worker that is killed from outside (not: raises) is outside the property",
                      "that a failing item leaves the worker's control flow identical to a successful one is read off the source (try/except around the per-item work, no break/return/raise in the handler)"],
     "assumptions": COMMON_ASSUME + ["the failure is an Exception raised by the callback / per-item work (BaseException such as KeyboardInterrupt is not caught by design)"],
@@ -205,7 +205,7 @@ LEVEL_TEXT = {
         "technique": "Lean 4 proof (induction on the subdivision depth, tables extracted from source) + symbolic and numeric differential execution",
     },
     "C19": {
-        "text": "How the five parallel code paths treat a failing item is re-extracted each run (worker: try/except around the per-item work, set the shared error event, continue the loop; parent: raise after joining when the event is set). Theorems over the hand-off protocol extended with failing callbacks: every execution with failures projects onto a failure-free execution, so the C03 results (all workers exit, queues drained, every item handed to a callback exactly once) carry over; once the parent has finished it has raised exactly when some callback failed or an input could not be loaded (the parent's own iteration raising, `loadFail`) — for all workers, items, interleavings and failure sets; and (Props/C19Live, lifting C03Live.stage_progress along the projection) from every reachable state some continuation lets the parent finish and raise iff a callback failed, so no failure can make a stage hang or lose the error. The real walk / visit_leaves / transform / multi_tan / multi_wcs are run with a failing item under a deterministic scheduler, with real processes under a watchdog, and serially.",
+        "text": "How the five parallel code paths treat a failing item is re-extracted each run (worker: try/except around the per-item work, set the shared error event, continue the loop; parent: raise after joining when the event is set). Theorems over the hand-off protocol extended with failing callbacks: every execution with failures projects onto a failure-free execution, so the C03 results (all workers exit, queues drained, every item handed to a callback exactly once) carry over; once the parent has finished it has raised exactly when some callback failed or an input could not be loaded (the parent's own iteration raising, `loadFail`) — for all workers, items, interleavings and failure sets; and (Props/C19Live, lifting C03Live.stage_progress along the projection) from every reachable state some continuation lets the parent finish and raise iff a callback failed, so no failure can make a stage hang or lose the error; and (Props/C19Bound.failing_effective_steps_bounded, through the same projection and C03Bound) an execution with failures contains at most 4·|items|+4·n+6 transitions outside the workers' polling loop, whatever fails and whenever. The real walk / visit_leaves / transform / multi_tan / multi_wcs are run with a failing item under a deterministic scheduler, with real processes under a watchdog, and serially.",
         "note": "trusted: Lean kernel; multiprocessing semantics; simmp; the source-shape extraction. For the walk, the tile whose callback failed is still reported to the dispatcher, so the protocol of C01 is unchanged.",
         "technique": "Lean 4 proof (simulation onto the failure-free protocol) + fault injection under deterministic schedules",
     },
